@@ -131,7 +131,11 @@ def gen_grid(tier, seed):
     ns = uniq(N_ABS + fill(0.0, 1e7, 5e5 if tier == 'quick' else 1.25e5, seed, 6))
     for ell, prj in cfg.TM_CONFIGS:
         fe = PRJ_PAR[prj][0]
-        for z in tmcommon.explicit_zones(prj, tier):
+        zs = tmcommon.explicit_zones(prj, 'quick')
+        if tier == 'thorough' and prj != 'isg':
+            # the grid lattice is translation-invariant in the zone number: a structural set of zones with the fine E/N lattice
+            zs = sorted(set(zs) | {z for z in (3, 15, 29, 32, 45, 46, 58) if z <= cfg.n_zones(prj)})
+        for z in zs:
             for hemi in ('South', 'North'):
                 for n in ns:
                     yield {'ell': ell, 'prj': prj, 'zone': z, 'hemi': hemi, 'north': n,
